@@ -1094,7 +1094,7 @@ func reproducers(c *driver.Ctx, clients map[string]*http.Client) {
 }
 
 func run(c *driver.Ctx) {
-	nGroups := int64(c.N(7, 70)) // x16 shards: 112 groups cover all 110 (limit, list) pairs already in the quick tier
+	nGroups := int64(c.N(7, 48)) // x16 shards: 112 groups cover all 110 (limit, list) pairs already in the quick tier; thorough = 768 groups
 	nRandom := c.N(100, 400)
 	clients := map[string]*http.Client{}
 	for i := int64(0); i < nGroups; i++ {
